@@ -226,10 +226,17 @@ class StateMachine(metaclass=StateMachineMetaclass):
             :ref:`listeners`.
         """
         self._listeners.update({o: None for o in listeners})
-        return self._add_listener(
+        self._add_listener(
             Listeners.from_listeners(Listener.from_obj(o) for o in listeners),
             allowed_references=SPECS_SAFE,
         )
+        # a listener may bring the first coroutine callbacks to a so far sync machine
+        self._callbacks.async_or_sync()
+        engine = getattr(self, "_engine", None)
+        if isinstance(engine, SyncEngine) and self._callbacks.has_async_callbacks:
+            self._engine = self._get_engine(engine._rtc)
+            self._engine._external_queue = engine._external_queue
+        return self
 
     def _repr_html_(self):
         return f'<div class="statemachine">{self._repr_svg_()}</div>'
